@@ -31,23 +31,30 @@ def gen_bcast_spec(rng, tag: int, model: Optional[str] = None) -> Dict[str, Any]
     model = model or rng.choice(MODELS)
     cat = codecs.MODELS[model][2]
     s: Dict[str, Any] = {
-        "model": model, "id": "%06x" % (tag & 0xFFFFFF), "key": "%02x" % rng.randrange(256),
+        "model": model, "id": "%06x" % (tag & 0xFFFFFF), "key": rng.choice(["18", "03", "06", "08", "00", "ff"]) if rng.random() < 0.15 else "%02x" % rng.randrange(256),
         "ip": [rng.choice([0, 1, 10, 127, 192, 255, rng.randrange(256)]) for _ in range(4)],
         "mac": [rng.choice([0, 0xff, 0x0a, 0xa0, rng.randrange(256)]) for _ in range(6)],
         "name": gen_name32(rng)}
     if cat in ("heater", "plug"):
-        s.update(on=rng.random() < 0.5, watts=rng.choice([0, 1, 219, 220, 255, 256, 2600, 65535, rng.randrange(65536)]),
-                 remaining=rng.choice([0, 1, 59, 60, 3599, 3600, 86399, rng.randrange(86400)]),
-                 auto_off=rng.choice([0, 3600, 86399, rng.randrange(86400)]))
+        s.update(on=rng.random() < 0.5, watts=rng.choice([0, 1, 219, 220, 255, 256, 2600, 65535, 61694, 65264, rng.randrange(65536)]),
+                 remaining=rng.choice([0, 1, 59, 60, 3599, 3600, 86399, 61694, 65264, 65536, 7680, rng.randrange(86400)]),
+                 auto_off=rng.choice([0, 3600, 86399, 61694, 65536, rng.randrange(86400)]))
     elif cat == "runner":
         s.update(position=rng.choice([0, 1, 9, 10, 16, 50, 99, 100, rng.randrange(101)]),
                  direction=rng.choice(["0000", "0100", "0001"]))
     else:
-        s.update(on=rng.random() < 0.5, temp10=rng.choice([0, 1, 255, 256, 281, 65535, rng.randrange(65536)]),
+        s.update(on=rng.random() < 0.5, temp10=rng.choice([0, 1, 255, 256, 281, 65535, 61694, 65264, 32767, 32768, rng.randrange(65536)]),
                  mode=rng.randrange(1, 6), target=rng.choice([0, 16, 30, 255, rng.randrange(256)]),
                  fan=rng.randrange(4), swing=rng.randrange(2),
                  remote_id="".join(rng.choice("ABCDEFGHIJKLMNOPQRSTUVWXYZ0123456789") for _ in range(8)))
     return s
+
+
+FIXTURE_TAGS = [0xAAAAAA, 0x3A20B7, 0xF2239A, 0xA123BC, 0x000001, 0xFFFFFF, 0x800000]
+
+
+def rand_tag(rng) -> int:
+    return rng.choice(FIXTURE_TAGS) if rng.random() < 0.08 else rng.randrange(1, 1 << 24)
 
 
 def valid_dgram(rng, tag: int, model: Optional[str] = None) -> bytes:
@@ -59,8 +66,23 @@ def again_dgram(rng, spec: Dict[str, Any]) -> bytes:
     s = dict(spec)
     fresh = gen_bcast_spec(rng, int(s["id"], 16), s["model"])
     keys = [k for k in fresh if k not in ("id", "model")]
-    for k in rng.sample(keys, rng.choice([0, 1, 1, 2])):
-        s[k] = fresh[k]
+    if rng.random() < 0.4:
+        # the smallest possible change: one octet of the address fields or one character of the name
+        k = rng.choice(["ip", "mac", "mac", "name", "key"])
+        if k in ("ip", "mac"):
+            v = list(s[k])
+            i = rng.choice([0, len(v) - 1, rng.randrange(len(v))])
+            v[i] = (v[i] + rng.choice([1, 0x80, 0xff])) & 0xFF
+            s[k] = v
+        elif k == "key":
+            s[k] = "%02x" % ((int(s[k], 16) + 1) & 0xFF)
+        else:
+            nm = s["name"]
+            if nm and ord(nm[-1]) < 0x7e and ord(nm[-1]) > 0x20:
+                s["name"] = nm[:-1] + chr(ord(nm[-1]) + 1)
+    else:
+        for k in rng.sample(keys, rng.choice([0, 1, 1, 2])):
+            s[k] = fresh[k]
     spec.update(s)
     return codecs.encode_broadcast(s)
 
@@ -81,7 +103,7 @@ def junk_dgram(rng, tag: int, kind: Optional[str] = None) -> bytes:
         return v[: len(v) - rng.choice([1, 2, 3, rng.randrange(1, len(v))])]
     if kind == "extended":
         k = rng.choice([1, 2, 3, 4, 5, 7])
-        b = v + rng.randbytes(k)
+        b = v + rng.choice([rng.randbytes(k), b"\n", b"\r\n", b"\x00", b"\r", b" ", b"\xff", b"\n" * k, b"\x00" * k])
         if len(b) in (159, 165, 168):
             b += b"\x00"
         return b
@@ -130,18 +152,18 @@ def net_faults(rng, st: Dict[str, Any], p_drop=0.05, p_dup=0.1, p_delay=0.4):
     return st
 
 
-def gen_c05(rng) -> Dict[str, Any]:
+def gen_c05(rng, long: bool = False) -> Dict[str, Any]:
     cfg = base_config(rng)
     cfg["ports"] = rng.choice([None, ALL_PORTS, [20002, 20003], [20002], [10003, 10002]])
     ports = cfg["ports"] or ALL_PORTS
     steps: List[dict] = [{"kind": "start"}]
-    n = rng.randrange(1, 25)
+    n = rng.randrange(200, 600) if long else rng.randrange(1, 25)
     specs: List[Dict[str, Any]] = []
     for t in range(n):
         if specs and rng.random() < 0.3:
             payload = again_dgram(rng, rng.choice(specs))
         else:
-            specs.append(gen_bcast_spec(rng, rng.randrange(1, 1 << 24)))
+            specs.append(gen_bcast_spec(rng, rand_tag(rng)))
             payload = codecs.encode_broadcast(specs[-1])
         st = {"kind": "dgram", "port": rng.choice(ports), "payload": payload.hex(), "tag": t}
         net_faults(rng, st)
@@ -207,22 +229,33 @@ def gen_c06_models(rng, index: int) -> Dict[str, Any]:
     return {"engine": "udp", "config": cfg, "steps": uidify(steps)}
 
 
-def gen_c07(rng) -> Dict[str, Any]:
+def gen_c07(rng, long: bool = False) -> Dict[str, Any]:
     cfg = base_config(rng)
     cfg["ports"] = rng.choice([None, ALL_PORTS, [20002, 20003], [20002], [20003, 10003, 20002]])
     ports = cfg["ports"] or ALL_PORTS
-    n = rng.randrange(2, 40)
+    n = rng.randrange(200, 600) if long else rng.randrange(2, 40)
     if rng.random() < 0.5:
         k = rng.randrange(1, 4)
         cfg["cb_raise"] = sorted(rng.sample(range(1, n + 1), min(k, n)))
     if rng.random() < 0.15:
         cfg["rxq_limit"] = rng.choice([1, 2, 4])
     steps: List[dict] = [{"kind": "start"}]
+    second = None
+    if rng.random() < 0.12:
+        # another bridge object in the same process tries to use one of the same ports (and fails)
+        other = [rng.choice(ports)] + ([30001] if rng.random() < 0.5 else [])
+        rng.shuffle(other)
+        cfg["bridges"] = [{"ports": cfg["ports"]}, {"ports": other}]
+        second = rng.randrange(0, n)
     p_junk = rng.choice([0.0, 0.3, 0.6])
     burst = rng.random() < 0.5
     specs: List[Dict[str, Any]] = []
     for t in range(n):
-        tag = rng.randrange(1, 1 << 24)
+        tag = rand_tag(rng)
+        if second is not None and t == second:
+            steps.append({"kind": rng.choice(["start", "aenter"]), "bridge": 1})
+            if rng.random() < 0.5:
+                steps.append({"kind": "stop", "bridge": 1})
         if rng.random() < p_junk:
             b = junk_dgram(rng, tag)
         elif specs and rng.random() < 0.25:
@@ -246,6 +279,40 @@ def gen_c07(rng) -> Dict[str, Any]:
 
 
 LIFE = ["start", "stop", "send", "occupy", "release", "aenter", "aexit", "aexit_exc", "send_late"]
+
+
+def gen_c17_two(rng) -> Dict[str, Any]:
+    """Two or three bridge objects in one process, with overlapping or disjoint port lists."""
+    cfg = base_config(rng)
+    pool = ALL_PORTS + [30001, 30002]
+    nb = rng.choice([2, 2, 3])
+    specs = []
+    for _ in range(nb):
+        specs.append({"ports": rng.sample(pool, rng.randrange(1, 4))})
+    if rng.random() < 0.6:
+        specs[1]["ports"] = rng.sample(specs[0]["ports"], rng.randrange(1, len(specs[0]["ports"]) + 1)) + \
+            ([rng.choice(pool)] if rng.random() < 0.5 else [])
+        specs[1]["ports"] = list(dict.fromkeys(specs[1]["ports"]))
+        rng.shuffle(specs[1]["ports"])
+    cfg["bridges"] = specs
+    cfg["ports"] = specs[0]["ports"]
+    steps: List[dict] = []
+    tagc = [0]
+    allp = sorted({p for sp in specs for p in sp["ports"]})
+    for _ in range(rng.randrange(3, 16)):
+        r = rng.random()
+        b = rng.randrange(nb)
+        if r < 0.35:
+            steps.append({"kind": rng.choice(["start", "aenter"]), "bridge": b})
+        elif r < 0.6:
+            steps.append({"kind": rng.choice(["stop", "aexit"]), "bridge": b, "exc": rng.random() < 0.3})
+        else:
+            tagc[0] += 1
+            steps.append({"kind": "dgram", "port": rng.choice(allp), "payload": valid_dgram(rng, rng.randrange(1, 1 << 24)).hex(),
+                          "tag": tagc[0]})
+            steps.append({"kind": "sleep", "s": 0.01})
+    steps.append({"kind": "sleep", "s": 1.0})
+    return {"engine": "udp", "config": cfg, "steps": uidify(steps)}
 
 
 def c17_sequences(maxlen: int) -> List[tuple]:
@@ -291,7 +358,7 @@ def c17_cases(maxlen: int) -> List[tuple]:
     return _C17[maxlen]
 
 
-def gen_c17(rng, index: Optional[int] = None, maxlen: int = 4) -> Dict[str, Any]:
+def gen_c17(rng, index: Optional[int] = None, maxlen: int = 4, long: bool = False) -> Dict[str, Any]:
     cfg = base_config(rng)
     steps: List[dict] = []
     tagc = [0]
@@ -331,7 +398,7 @@ def gen_c17(rng, index: Optional[int] = None, maxlen: int = 4) -> Dict[str, Any]
     ports = cfg["ports"] or ALL_PORTS
     running = False
     occ: set = set()
-    for _ in range(rng.randrange(1, 14)):
+    for _ in range(rng.randrange(80, 200) if long else rng.randrange(1, 14)):
         r = rng.random()
         if r < 0.25 and (not running or rng.random() < 0.15):
             steps.append({"kind": rng.choice(["start", "aenter"])})
